@@ -12,7 +12,16 @@
 #define memset(d, c, n)		verif_memset ((d), (c), (n))
 void * verif_memcpy (void *dst, const void *src, size_t n) ;
 void * verif_memset (void *dst, int c, size_t n) ;
+#ifdef LAYOUT_MS
+#include "ms_adpcm.c"
+#define IMA_ADPCM_PRIVATE	MSADPCM_PRIVATE		/* same reader state fields */
+#define ima_read_block		msadpcm_read_block
+#define decode_block_c		msadpcm_decode_block	/* called directly: replaced by the contract below */
+#define RET_T				sf_count_t
+#else
 #include "ima_adpcm.c"
+#define RET_T				int
+#endif
 #undef memcpy
 #undef memset
 void verif_nolog (void) { }
@@ -26,7 +35,7 @@ void verif_nolog (void) { }
 #define LEN_MAX (1 << 20)
 
 size_t g_zero ;		/* ghost byte offset inside the caller's buffer */
-int g_decode_calls, g_zero_filled ; size_t g_zero_from ;
+int g_decode_calls, g_zero_filled, g_decode_failed ; size_t g_zero_from ;
 short *g_ptr ;		/* the caller's buffer */
 
 void * verif_memcpy (void *dst, const void *src, size_t n)
@@ -50,33 +59,46 @@ void * verif_memset (void *dst, int c, size_t n)
 
 static int decode_block_c (SF_PRIVATE *psf, IMA_ADPCM_PRIVATE *pima)
 __CPROVER_requires (__CPROVER_r_ok (psf, sizeof (SF_PRIVATE)) && __CPROVER_w_ok (pima, sizeof (IMA_ADPCM_PRIVATE)) && 0 <= pima->blockcount && pima->blockcount <= (1 << 24) && 0 <= g_decode_calls && g_decode_calls <= (1 << 24))
+#ifdef LAYOUT_MS
+/* msadpcm_decode_block may fail (nothing could be read): it then reports it and the reader stops */
+__CPROVER_assigns (pima->blockcount, pima->samplecount, g_decode_calls, g_decode_failed, psf->error, __CPROVER_object_upto ((char *) pima->samples, SPB * CH * 2))
+__CPROVER_ensures (pima->blockcount == __CPROVER_old (pima->blockcount) + 1 && pima->samplecount == 0)
+__CPROVER_ensures (__CPROVER_return_value == 0 ? (g_decode_calls == __CPROVER_old (g_decode_calls) + 1 && g_decode_failed == __CPROVER_old (g_decode_failed))
+	: (g_decode_failed == 1 && g_decode_calls == __CPROVER_old (g_decode_calls)))
+#else
 __CPROVER_assigns (pima->blockcount, pima->samplecount, g_decode_calls, psf->error, __CPROVER_object_upto ((char *) pima->samples, SPB * CH * 2))
 __CPROVER_ensures (pima->blockcount == __CPROVER_old (pima->blockcount) + 1 && pima->samplecount == 0 && g_decode_calls == __CPROVER_old (g_decode_calls) + 1)
+#endif
 ;
 
 int vin_len, vin_sc, vin_bc, vin_blocks ;
 
-static int ima_read_block (SF_PRIVATE *psf, IMA_ADPCM_PRIVATE *pima, short *ptr, int len)
+static RET_T ima_read_block (SF_PRIVATE *psf, IMA_ADPCM_PRIVATE *pima, short *ptr, int len)
 __CPROVER_requires (__CPROVER_is_fresh (psf, sizeof (SF_PRIVATE)) && __CPROVER_is_fresh (pima, sizeof (IMA_ADPCM_PRIVATE)) && __CPROVER_is_fresh (pima->samples, SPB * CH * 2))
 __CPROVER_requires (pima->channels == CH && pima->samplesperblock == SPB && 0 <= pima->blocks && pima->blocks <= (1 << 20) && pima->blocks == vin_blocks)
 __CPROVER_requires (0 <= pima->samplecount && pima->samplecount <= SPB && pima->samplecount == vin_sc && 0 <= pima->blockcount && pima->blockcount <= pima->blocks && pima->blockcount == vin_bc)
+#ifndef LAYOUT_MS
 __CPROVER_requires (__CPROVER_obeys_contract (pima->decode_block, decode_block_c))
+#endif
+__CPROVER_requires (g_decode_failed == 0)
 __CPROVER_requires (0 < len && len <= LEN_MAX && len % CH == 0 && len == vin_len && __CPROVER_is_fresh (ptr, (size_t) len * 2) && ptr == g_ptr)
 __CPROVER_requires (g_decode_calls == 0 && g_zero_filled == 0 && g_zero < (size_t) len * 2)
-__CPROVER_assigns (pima->blockcount, pima->samplecount, g_decode_calls, g_zero_filled, g_zero_from, psf->error, __CPROVER_object_whole (ptr), __CPROVER_object_whole (pima->samples))
+__CPROVER_assigns (pima->blockcount, pima->samplecount, g_decode_calls, g_decode_failed, g_zero_filled, g_zero_from, psf->error, __CPROVER_object_whole (ptr), __CPROVER_object_whole (pima->samples))
 __CPROVER_ensures (0 <= __CPROVER_return_value && __CPROVER_return_value <= vin_len && __CPROVER_return_value % CH == 0) /*@C05.impl_ret_range*/ /*@C15.impl_ret_range*/
-__CPROVER_ensures ((long) __CPROVER_return_value == ((long) g_decode_calls * SPB + pima->samplecount - vin_sc) * CH) /*@C05.items_returned_are_the_items_consumed*/ /*@C06.items_returned_are_the_items_consumed*/
-__CPROVER_ensures (__CPROVER_return_value < vin_len ==> (pima->blockcount >= vin_blocks && pima->samplecount >= SPB)) /*@C05.short_only_at_end_of_data*/
-__CPROVER_ensures (__CPROVER_return_value < vin_len ==> (g_zero_filled && g_zero_from == (size_t) __CPROVER_return_value * 2
+__CPROVER_ensures (!g_decode_failed ==> (long) __CPROVER_return_value == ((long) g_decode_calls * SPB + pima->samplecount - vin_sc) * CH) /*@C05.items_returned_are_the_items_consumed*/ /*@C06.items_returned_are_the_items_consumed*/
+__CPROVER_ensures ((__CPROVER_return_value < vin_len && !g_decode_failed) ==> (pima->blockcount >= vin_blocks && pima->samplecount >= SPB)) /*@C05.short_only_at_end_of_data_or_when_the_decoder_could_not_read*/
+__CPROVER_ensures ((__CPROVER_return_value < vin_len && !g_decode_failed) ==> (g_zero_filled && g_zero_from == (size_t) __CPROVER_return_value * 2
 	&& (g_zero >= g_zero_from ==> ((char *) ptr) [g_zero] == 0))) /*@C05.rest_of_the_region_is_zero_filled*/
 ;
 
 void h_ima_read_block (void)
 {	SF_PRIVATE *psf ; IMA_ADPCM_PRIVATE *pima ; short *ptr ; int len ;
+#ifndef LAYOUT_MS
 	void *keep_c [] = { (void *) decode_block_c } ; (void) keep_c ;
+#endif
 	{ int a [4] ; size_t z ; short *p ; vin_len = a [0] ; vin_sc = a [1] ; vin_bc = a [2] ; vin_blocks = a [3] ; g_zero = z ; g_ptr = p ; }
-	g_decode_calls = 0 ; g_zero_filled = 0 ;
-	int r = ima_read_block (psf, pima, ptr, len) ;
+	g_decode_calls = 0 ; g_zero_filled = 0 ; g_decode_failed = 0 ;
+	int r = (int) ima_read_block (psf, pima, ptr, len) ;
 	REACH (r == vin_len && g_decode_calls >= 2, "request spans several blocks") ;
 	REACH (r < vin_len && r > 0, "data ends inside the request") ;
 	CANARY () ;
